@@ -18,6 +18,8 @@ CLAIMED = {
              note='Capacities up to 160 (quick) / 256 (thorough); string contents concrete, ids symbolic; std::bad_alloc outside; purge_removed on buffers with non-entity top-level items outside.', ref='§2 C04'),
  'C15': dict(text='Bounded symbolic model checking against set/multimap models: IdSetDense (32- and 64-bit ids, tiny chunks) one operation at a time from an arbitrary valid state with symbolic chunk contents and a symbolic id (inductive step, growth and chunk borders included), iteration from states with members at symbolic positions, IdSetSmall, RelationsMapStash with symbolic 64-bit pairs through all index builders, and ItemStash add/remove/garbage_collect histories over all removal subsets.',
              note='One-step (inductive) for IdSetDense: the representation invariant is "size = number of set bits, chunks allocated per skeleton"; production chunk size and the automatic GC trigger (>= 10000 removals) are outside.', ref='§2 C15'),
+ 'C20': dict(text='Bounded symbolic model checking of the dispatch code: apply()/apply_item() in ten configurations (const and non-const buffers, item ranges of all item types, one to three static handlers, lambdas with const/non-const signatures, DynamicHandler, ChainHandler, ItemIterator<OSMObject>) on buffers whose item types range over all 13 item types with symbolic removed flags, against a reference dispatch table (order of handlers, generic-then-specific callback, flush once per handler); DiffIterator on short histories with symbolic type and id.',
+             note='io::InputIterator over a live Reader (threads) is outside; items are raw 64-byte headers since the callbacks under test only receive references.', ref='§2 C20'),
 }
 NA = {
  'C19': 'The property is its schedule quantifier (lost wake-ups, FIFO under contention, exactly-once execution); bounded symbolic interleaving with cbmc did not finish a 2-thread toy monitor in 200 s here, and enumerating schedules would be a different technique family.',
